@@ -244,7 +244,7 @@ def main(argv):
     rep.coverage.update({
         'evaluations': len(cases),
         'distinct_nontrivial': len({vlib.case_hash(strip(c)) for c in cases if nontrivial(c)}),
-        'rule': 'one instruction per case, all implemented SOP2/SOP1/SOPC/SOPK/SOPP opcodes of both ALUs. (a) deterministic corner grid, always run: each source in {0, 1, 0x7fffffff, 0x80000000, 0xfffffffe, 0xffffffff, random} x each other source likewise x SCC-in {0,1} (64-bit analogues for B64 rows; EXEC x source for saveexec); shift amounts {0,1,31,32,33,63,64,0xffffffff}; bit-field offset {0,1,4,16,31} x width {0,1,4,16,28,31,32,33,64,127}; SOPK immediates x register values equal/near the sign-extended immediate; SOPP immediates x SCC x VCC zero/non-zero x EXEC zero/non-zero. (c) vector integer opcodes of VOP2/VOP1/VOPC/VOP3a/VOP3b: two 64-lane grid cases per opcode (per-lane cross product of eight operand corners, shift-amount / 64-bit corners, carry-in pattern and complement, EXEC full and with holes, and three cases with EXEC = 0, 1, 1<<63) plus random cases with all operand kinds; corpus of repaired-defect witnesses. (d) binary32 opcodes (add/sub/mul/mac/mad/fma, min/max, compares, conversions): grid lanes over {+-0, +-1, +-inf, NaN, denormals, largest finite, 2^31, 2^32, halfway cases} plus random; NaN results compared as a class. (e) memory opcodes (SMEM s_load_dword..x16, FLAT/GLOBAL loads and stores, DS reads/writes incl. read2/write2/b128) against a flat byte memory standing in for the storage accessor and a 256-byte LDS: per SMEM/DS opcode 8 deterministic cases (EXEC all ones / holes / 1<<63 / 0 / 1 / mixed); per FLAT/GLOBAL opcode an address-mode grid (immediate in {0,1,4,0xFFF,-1,-4,-8,-4096} x SADDR off / SGPR pair, lanes = VGPR-offset corners {0,4,<|imm|,|imm|,0xFFFFF000..,0xFFFFFFFC} and 64-bit bases around 2^32 / 2^64), six full-EXEC lane patterns (contiguous, reversed, bit-reversed, strided, all equal, ends contiguous with permuted middle) and four EXEC corners (address bases incl. wrap at 2^64 and 2^32, lane strides 0/1/3/4/8/16 = overlapping and unaligned stores, SADDR off / s[0:1] / other pair, offsets 0, 4, -4, 4095, -4096, unaligned SMEM offsets, EXEC full / holes / two lanes / empty, LDS accesses leaving the allocation) plus random cases; every byte read or written and the whole LDS are compared. (b) %d random cases per scalar opcode: operand kinds SGPR / literal / '
+        'rule': 'one instruction per case, all implemented SOP2/SOP1/SOPC/SOPK/SOPP opcodes of both ALUs. (a) deterministic corner grid, always run: each source in {0, 1, 0x7fffffff, 0x80000000, 0xfffffffe, 0xffffffff, random} x each other source likewise x SCC-in {0,1} (64-bit analogues for B64 rows; EXEC x source for saveexec); shift amounts {0,1,31,32,33,63,64,0xffffffff}; bit-field offset {0,1,4,16,31} x width {0,1,4,16,28,31,32,33,64,127}; SOPK immediates x register values equal/near the sign-extended immediate; SOPP immediates x SCC x VCC zero/non-zero x EXEC zero/non-zero. (c) vector integer opcodes of VOP2/VOP1/VOPC/VOP3a/VOP3b: two 64-lane grid cases per opcode (per-lane cross product of eight operand corners, shift-amount / 64-bit corners, carry-in pattern and complement, EXEC full and with holes, and three cases with EXEC = 0, 1, 1<<63) plus random cases with all operand kinds; corpus of repaired-defect witnesses. (d) binary32 opcodes (add/sub/mul/mac/mad/fma, min/max, compares, conversions): grid lanes over {+-0, +-1, +-inf, NaN, denormals, largest finite, 2^31, 2^32, halfway cases} plus random; NaN results compared as a class. (e) memory opcodes (SMEM s_load_dword..x16, FLAT/GLOBAL loads and stores, DS reads/writes incl. read2/write2/b128) against a flat byte memory standing in for the storage accessor and a 64 KiB LDS (default content by formula; stores additionally compared at every byte the manual says is written): per SMEM opcode 8 and per DS opcode 9 deterministic cases (two-address offsets {0,1,31,32,63,64,127,128,255}, 16-bit offsets {0,4,0xFF,0x100,0x7FFC,0xFFFC,..}; EXEC full / 60-lane tail / even lanes / lanes 0 and 63 off / holes / 1<<63 / 0 / 1); per FLAT/GLOBAL opcode an address-mode grid (immediate in {0,1,4,0xFFF,-1,-4,-8,-4096} x SADDR off / SGPR pair, lanes = VGPR-offset corners {0,4,<|imm|,|imm|,0xFFFFF000..,0xFFFFFFFC} and 64-bit bases around 2^32 / 2^64), six full-EXEC lane patterns (contiguous, reversed, bit-reversed, strided, all equal, ends contiguous with permuted middle) and seven EXEC corners (incl. 60-lane tail, even lanes, lanes 0 and 63 off) (address bases incl. wrap at 2^64 and 2^32, lane strides 0/1/3/4/8/16 = overlapping and unaligned stores, SADDR off / s[0:1] / other pair, offsets 0, 4, -4, 4095, -4096, unaligned SMEM offsets, EXEC full / holes / two lanes / empty, LDS accesses leaving the allocation) plus random cases; every byte read or written and the whole LDS are compared. (b) %d random cases per scalar opcode: operand kinds SGPR / literal / '
                 'inline +- / float constants / vcc_lo / vcc_hi / m0 / exec_lo / scc / exec_hi / vccz / execz, destinations SGPR / vcc / m0 / exec; '
                 'values from corner sets (0, 1, -1, 0x7fffffff, 0x80000000, shift amounts 31/32/33/63/64, bit-field descriptors, carry pairs a+b=2^32-1) and random; '
                 'random SCC/VCC/EXEC/M0/PC and register-file fill; non-trivial = executed without panic and changed state or is a compare/branch' % per,
